@@ -92,6 +92,12 @@ CHECKS.update({
    text="Bounded-exhaustive: every generated value (unknowns with every refinement kind at one and two positions and any depth, prefixes around/beyond the 256-byte limit with multi-byte characters at the cut, infinite/exclusive/64-bit-limit bounds, nulls, numbers around +-2^63, 2^64 and beyond, exact float64, 0.1 and 1/3 at 512 bits, +-infinity, three physical representations) is marshalled against its type and every single-position placeholder constraint and unmarshalled; TLC checks same type and known-ness at every position, equality of known parts (identity for whole / exact-float64 numbers), that unknown parts admit everything the original admitted, and that marked values are rejected.",
    design_ref="DESIGN.md section 4 C16",
    note="Two known-finding classes (type lost for null/unknown/empty under a nested placeholder; whole numbers needing more than 512 bits) are listed in KNOWN_FINDINGS.txt. Bytes are not modelled here (C17 owns inputs). Trusted: harness projection, TLC."),
+ "C17": dict(
+   technique="TLA+ outcome predicate for decoder calls with TLC-enumerated token trees (MessagePack trees with lying length fields, refinement maps incl. contradictory ones, JSON documents and type descriptions) turned into bytes by the harness, plus seeded byte-level mutation of valid encodings; TLC trace validation; worker processes to observe crashes",
+   text="Bounded enumeration of structured inputs plus seeded exploration of byte-level inputs: every token tree TLC generates (refinement maps over keys 1-6 with ill-typed, duplicate and mutually contradictory entries; arrays/maps with truthful and lying lengths up to 2^31-1; non-string and duplicate keys; foreign, oversize and truncated extensions; NaN/Inf floats; dynamic wrappers with invalid type JSON; JSON documents with duplicate keys and invalid {value,type} wrappers; valid and invalid type descriptions) is decoded against up to 15 target types by msgpack.Unmarshal/ImpliedType and json.Unmarshal/ImpliedType/UnmarshalType; TLC judges no panic, well-formed result conforming to the target, well-formed types, bounded allocation, and rejection of unsatisfiable refinements; a dying worker process is a violation.",
+   design_ref="DESIGN.md section 4 C17",
+   category="exploration",
+   note="Byte-level mutants and random bytes are sampled with VERIF_SEED (not enumerated); the memory bound is judged on runtime.MemStats counters. Trusted: the harness token encoder, harness projection, TLC."),
 })
 
 NOT_APPLICABLE = {}
